@@ -229,14 +229,14 @@ def _prune_ob(clsname, obj, lists, nchild_q, nchild_t):
 
 
 CU = ["functions", "subroutines", "types", "interfaces", "absinterfaces", "variables"]
-_prune_ob("FortranModule", "module", CU, {l: 1 for l in CU}, {"functions": 2, "subroutines": 1, "types": 2, "interfaces": 1, "absinterfaces": 1, "variables": 2})
+_prune_ob("FortranModule", "module", CU, {l: 1 for l in CU}, {"functions": 2, "subroutines": 1, "types": 1, "interfaces": 1, "absinterfaces": 1, "variables": 2})
 _prune_ob("FortranSubroutine", "proc", CU, {l: 1 for l in CU}, {"functions": 2, "subroutines": 1, "types": 1, "interfaces": 1, "absinterfaces": 1, "variables": 2})
 _prune_ob("FortranProgram", "program", CU, {l: 1 for l in CU}, {"functions": 1, "subroutines": 2, "types": 1, "interfaces": 1, "absinterfaces": 1, "variables": 2})
 _prune_ob("FortranFunction", "proc", CU, {"functions": 1, "types": 1, "variables": 1}, {l: 1 for l in CU})
 _prune_ob("FortranModuleProcedureImplementation", "proc", CU, {"subroutines": 1, "types": 1, "variables": 1}, {l: 1 for l in CU})
 SM = CU + ["modprocedures", "modsubroutines", "modfunctions"]
 _prune_ob("FortranSubmodule", "submodule", SM, {l: 1 for l in ["functions", "types", "variables", "modprocedures", "modsubroutines", "modfunctions"]},
-          {l: 1 for l in SM})
+          {l: 1 for l in SM if l != "absinterfaces"})
 _prune_ob("FortranType", "type", ["boundprocs", "variables"], {"boundprocs": 2, "variables": 2}, {"boundprocs": 3, "variables": 3})
 _prune_ob("FortranBlockData", "blockdata", ["types", "variables"], {"types": 2, "variables": 2}, {"types": 3, "variables": 3})
 
